@@ -110,7 +110,7 @@ def reference(disk, ops):
     return sorted(seen), {f: cur(f) for f in seen}, buffers
 
 
-def srv_line(i, disk, ops, extra_reqs=()):
+def srv_line(i, disk, ops, extra_reqs=(), jitter=None):
     d = "%s/tmp/sess%d" % (core.BUILD, i)
     script = []
     opened = set()
@@ -136,7 +136,10 @@ def srv_line(i, disk, ops, extra_reqs=()):
     for r in extra_reqs:
         script.append(["req", rid] + list(r))
         rid += 1
-    return "srv " + json.dumps({"dir": d, "disk": {FILES[f]: v.text for f, v in disk.items()}, "script": script, "timeout_ms": 8000}), d, ws
+    spec = {"dir": d, "disk": {FILES[f]: v.text for f, v in disk.items()}, "script": script, "timeout_ms": 8000}
+    if jitter is not None:
+        spec["jitter"] = jitter
+    return "srv " + json.dumps(spec), d, ws
 
 
 def parse_stream(out, d):
